@@ -72,6 +72,20 @@ def _sample_check(predict, p, seeds, what):
             first = out
         counts += out.reshape(DRAW_TILES, m).sum(axis=0)
         total += DRAW_TILES
+    # a RandomState *instance* is used and advanced (scikit-learn's random_state convention): two consecutive calls
+    # with the same instance are two different draws, and a fresh instance with the same seed repeats the first
+    if ((p > 0.2) & (p < 0.8)).sum() * DRAW_TILES >= 200:
+        rs = np.random.RandomState(int(seeds[0]) + 7)
+        a1 = np.asarray(predict(DRAW_TILES, rs)).reshape(-1)
+        a2 = np.asarray(predict(DRAW_TILES, rs)).reshape(-1)
+        b1 = np.asarray(predict(DRAW_TILES, np.random.RandomState(int(seeds[0]) + 7))).reshape(-1)
+        if not np.array_equal(a1, b1):
+            raise PropertyViolation(f"{what}: predict with a fresh RandomState(seed) instance is not reproducible")
+        if np.array_equal(a1, a2):
+            raise PropertyViolation(f"{what}: two consecutive predict calls with the same RandomState instance return identical labels for "
+                                    f"{a1.shape[0]} rows (>= 200 of them with 0.2 < p < 0.8): the generator passed in is not advanced")
+        counts += a2.reshape(DRAW_TILES, m).sum(axis=0)
+        total += DRAW_TILES
     freq = counts / total
     bad = np.abs(freq - p) > EPS_P
     if bad.any():
